@@ -455,7 +455,8 @@ Print Assumptions C05_source_roundtrip_module.
 
 (** the correspondence with the checker's [expected_of]: it is [expected_of_settings] at the
     program and the settings of the case (by conversion), and [expected_of_source] equals
-    [expected_of_settings] when the bit-order markers read as [::bits::order::{Lsb0,Msb0}] *)
+    [expected_of_settings] when the bit-order markers read as [::bits::order::{Lsb0,Msb0}] (needed
+    only for the bit orders of the bit sequences the definition mentions, [def_mentions_order]) *)
 Theorem C05_checker_expected_of :
   forall c d, expected_of c d =
               expected_of_settings (pg_defs (c5_prog c)) (settings_of (tg_spec (c5_tg c))) d.
@@ -464,17 +465,19 @@ Print Assumptions C05_checker_expected_of.
 
 Theorem C05_expected_of_source_settings :
   forall defs s order_tp d,
-  (forall lsb, tpath_pty (ProgramSkel.alloc_segs s) (order_tp lsb) = bits_order_pty lsb) ->
+  (forall lsb, def_mentions_order d lsb = true ->
+               tpath_pty (ProgramSkel.alloc_segs s) (order_tp lsb) = bits_order_pty lsb) ->
   expected_of_source defs s order_tp d = expected_of_settings defs s d.
 Proof. exact expected_of_source_settings. Qed.
 Print Assumptions C05_expected_of_source_settings.
 
-(** the reading hypothesis of the last theorem holds when the settings substitute the bit-order
-    markers by [::bits::order::{Lsb0,Msb0}] (what the harness does, harness/src/c05.rs) *)
+(** the reading hypothesis of the last theorem holds for a bit order whose marker the settings
+    substitute by [::bits::order::{Lsb0,Msb0}] (the harness does so for the markers that occur in the
+    registry, harness/src/tg.rs [bit_order_subs]) *)
 Theorem C05_bits_order_reading :
-  forall order_tp : bool -> tpath,
-  (forall lsb, order_tp lsb = TPath (abs_path ["bits"; "order"; if lsb then "Lsb0" else "Msb0"]) []) ->
-  forall asegs lsb, tpath_pty asegs (order_tp lsb) = bits_order_pty lsb.
+  forall (order_tp : bool -> tpath) lsb,
+  order_tp lsb = TPath (abs_path ["bits"; "order"; if lsb then "Lsb0" else "Msb0"]) [] ->
+  forall asegs, tpath_pty asegs (order_tp lsb) = bits_order_pty lsb.
 Proof. exact bits_order_reading. Qed.
 Print Assumptions C05_bits_order_reading.
 
@@ -498,13 +501,14 @@ Theorem C05_checker_accepts_model :
   RegistryOf defs L r ->
   (forall sd, In sd defs -> def_okb s sd = true) ->
   prelude_okb s = true -> order_resolves s order_tp -> render_okb s defs = true ->
-  (forall lsb, tpath_pty (ProgramSkel.alloc_segs s) (order_tp lsb) = bits_order_pty lsb) ->
   (forall d1 d2 sd1 sd2,
      nth_error defs d1 = Some sd1 -> nth_error defs d2 = Some sd2 -> sd_path sd1 = sd_path sd2 -> d1 = d2) ->
   (forall k sd, nth_error defs k = Some sd -> cf_def c k sd = true ->
      forallb (fun f => no_cow_cow (sf_ty f)) (def_sfields sd) = true /\ box_names_okb defs sd = true /\
      forallb (fun f => apps_okb defs (sf_ty f) && field_conv_okb f) (def_sfields sd) = true /\
      (forall lsb, sd_path sd <> order_path_of lsb) /\
+     (forall lsb, def_mentions_order sd lsb = true ->
+                  tpath_pty (ProgramSkel.alloc_segs s) (order_tp lsb) = bits_order_pty lsb) /\
      (exists id args, L id = Some (SApp k args)) /\
      (forall id args, L id = Some (SApp k args) ->
         (exists args', In args' (insts_of c k) /\ args = map canon args') /\
@@ -514,6 +518,19 @@ Theorem C05_checker_accepts_model :
   prop_source_roundtrip c = true.
 Proof. exact prop_source_roundtrip_of_model. Qed.
 Print Assumptions C05_checker_accepts_model.
+
+(** ... and all of these hypotheses as ONE boolean on a case, [hyp_emission_theorem]
+    (Corr/RunC05Emit.v: [registry_ofb], [prelude_nodocs_b], [def_okb], [prelude_okb],
+    [order_resolvesb], [render_okb], pairwise distinct paths, per coincidence-free definition
+    [def_emission_okb], the model generates and emits plain items; vacuous when the model does not
+    emit a module).  On every case on which it holds, the verdict of the checker is a CONSEQUENCE of
+    the model correspondence [corr_gen] *)
+From V Require Import Corr.RunC05Emit.
+Theorem C05_checker_verdict_from_correspondence :
+  forall c : c05_case,
+    hyp_emission_theorem c = true -> corr_gen (c5_tg c) = true -> prop_source_roundtrip c = true.
+Proof. exact hyp_emission_sound. Qed.
+Print Assumptions C05_checker_verdict_from_correspondence.
 
 (** (3) examples, both sides computed: left, the model generates, emits the module, the tokens are
     read back, the item is looked up ([model_item_at]) and stripped; right, [expected_item] of the
